@@ -50,7 +50,14 @@ func runWorker(e *Env, ses *workerlib.Session, maxprocs int, timeout time.Durati
 	logPrefix := filepath.Join(e.Scratch, "logs", fmt.Sprintf("race%d", id))
 	ctx, cancel := context.WithTimeout(context.Background(), timeout)
 	defer cancel()
-	cmd := exec.CommandContext(ctx, e.Worker, sesPath)
+	bin := e.Worker
+	if ses.Mode == "cover" {
+		bin = e.Cover
+	}
+	if ses.Variant == "small" {
+		bin = e.Small
+	}
+	cmd := exec.CommandContext(ctx, bin, sesPath)
 	if maxprocs <= 0 {
 		maxprocs = 2
 	}
@@ -267,6 +274,7 @@ type Agg struct {
 	PanicCalls   int64
 	RaceReports  int64
 	SiteHits     []uint64
+	InitHits     []uint32
 	SyncOps      map[string]int64
 	PolicyRuns   map[string]int64
 	ShapeRuns    map[string]int64
@@ -379,6 +387,9 @@ func (a *Agg) add(stage string, pr *ProcResult) {
 	}
 	for i, h := range s.SiteHits {
 		a.SiteHits[i] += uint64(h)
+	}
+	if len(s.InitHits) > 0 {
+		a.InitHits = s.InitHits
 	}
 	for k, v := range s.SyncOps {
 		a.SyncOps[k] += v
